@@ -441,6 +441,12 @@ func countedLoop(body map[*ssa.BasicBlock]bool) (string, bool) {
 			continue
 		}
 		cmp, ok := ifi.Cond.(*ssa.BinOp)
+		if ok && cmp.Op == token.GEQ && body[b.Succs[0]] {
+			// descending: i >= const with i decremented every iteration
+			if _, isC := core.ConstInt(cmp.Y); isC && isDecreasing(cmp.X, body) {
+				return "induction variable decreasing towards a constant lower bound", true
+			}
+		}
 		if !ok || cmp.Op != token.LSS {
 			continue
 		}
@@ -457,6 +463,21 @@ func countedLoop(body map[*ssa.BasicBlock]bool) (string, bool) {
 		}
 	}
 	return "", false
+}
+
+func isDecreasing(v ssa.Value, body map[*ssa.BasicBlock]bool) bool {
+	p, ok := v.(*ssa.Phi)
+	if !ok || !body[p.Block()] {
+		return false
+	}
+	for _, e := range p.Edges {
+		if bo, ok := e.(*ssa.BinOp); ok && body[bo.Block()] && bo.X == ssa.Value(p) {
+			if k, ok := core.ConstInt(bo.Y); ok && ((bo.Op == token.SUB && k > 0) || (bo.Op == token.ADD && k < 0)) {
+				return true
+			}
+		}
+	}
+	return false
 }
 
 func isInduction(v ssa.Value, body map[*ssa.BasicBlock]bool) bool {
